@@ -378,6 +378,8 @@ class Rewriter:
             text = self.r5_ready(scope, text)
         if "R3" in u.rw:
             text = self.r3_pin(scope, text)
+        if "R13" in u.rw:
+            text = self.r13_bytestr(scope, text)
         for (rid, sc, old, new, cnt) in u.replaces:
             if sc != scope:
                 continue
@@ -414,6 +416,27 @@ class Rewriter:
                 self.note("R3", scope, mt.group(0), new)
             text = re.sub(rx, new, text)
         return text
+
+    def r13_bytestr(self, scope, text):
+        """b"..." -> &[b0, b1, ...] (the same bytes, as an array literal whose contents Verus can see)"""
+        out = []
+        i = 0
+        n = len(text)
+        m = rl.mask(text)
+        pos = 0
+        for mt in re.finditer(r'(?<![\w])b"', text):
+            s = mt.start()
+            if s < pos or m[s] != '"':
+                continue
+            e = rl._string_end(text, s)
+            lit = text[s + 2:e - 1]
+            bs = _decode_bytestr(lit)
+            new = "&[" + ", ".join("%du8" % b for b in bs) + "]"
+            self.note("R13", scope, text[s:e], new)
+            out.append(text[pos:s] + new)
+            pos = e
+        out.append(text[pos:])
+        return "".join(out)
 
     def r5_ready(self, scope, text):
         while True:
@@ -467,6 +490,32 @@ class Rewriter:
             self.note("R6", scope, text[mt.start():cl + 1], new)
             text = text[:mt.start()] + new + text[cl + 1:]
             pos = mt.start() + len(new)
+
+
+def _decode_bytestr(lit):
+    out = []
+    i = 0
+    esc = {"n": 10, "r": 13, "t": 9, "\\": 92, "0": 0, "'": 39, '"': 34}
+    while i < len(lit):
+        c = lit[i]
+        if c == "\\":
+            d = lit[i + 1]
+            if d == "x":
+                out.append(int(lit[i + 2:i + 4], 16))
+                i += 4
+            elif d == "\n":
+                i += 2
+                while i < len(lit) and lit[i] in " \t\n":
+                    i += 1
+            elif d in esc:
+                out.append(esc[d])
+                i += 2
+            else:
+                raise Undecided("unsupported escape in byte string: %r" % lit)
+        else:
+            out.append(ord(c))
+            i += 1
+    return out
 
 
 def _split_range(inner):
